@@ -18,6 +18,8 @@ import ToastyVerif.Model.Walk
 import ToastyVerif.Model.Toast
 import ToastyVerif.Model.Lookup
 import ToastyVerif.Model.Sample
+import ToastyVerif.Model.Filter
+import ToastyVerif.Gen.Filter
 
 namespace Driver
 
@@ -651,6 +653,38 @@ def handleSample (a : List String) : String :=
     | _, _, _ => "bad-op"
   | _ => "bad-op"
 
+/-! ### tile filters and chunked maps -/
+
+def handleFilter (a : List String) : String :=
+  match a with
+  | "bbox" :: fuel :: rest => match fuel.toNat?, rest.mapM parseRat with
+    | some f, some [tau, pi, pole, l0, l1, l2, l3, b0, b1, b2, b3, lonmin, lonmax, latmin, latmax] =>
+      match Filter.intersects tau pi pole f ⟨l0, l1, l2, l3⟩ ⟨b0, b1, b2, b3⟩ ⟨lonmin, lonmax, latmin, latmax⟩ with
+      | some true => "true"
+      | some false => "false"
+      | none => "fuel"
+    | _, _ => "bad-op"
+  | ["chunkspec", gw, gh, tw, th, i] => match [gw, gh, tw, th, i].mapM String.toInt? with
+    | some [gw, gh, tw, th, i] =>
+      if i < 0 || i ≥ Gen.Filter.n_chunks gw gh tw th then "ValueError"
+      else let s := Gen.Filter.chunk_spec gw gh tw th i; s!"{s.1} {s.2.1} {s.2.2.1} {s.2.2.2}"
+    | _ => "bad-op"
+  | ["nchunks", gw, gh, tw, th] => match [gw, gh, tw, th].mapM String.toInt? with
+    | some [gw, gh, tw, th] => toString (Gen.Filter.n_chunks gw gh tw th)
+    | _ => "bad-op"
+  | ["bounds", gw, gh, cx, cy, cw, ch] => match [gw, gh, cx, cy, cw, ch].mapM String.toInt? with
+    | some [gw, gh, cx, cy, cw, ch] =>
+      let b := Gen.Filter.chunk_bounds gw gh cx cy cw ch
+      s!"{showRat b.1} {showRat b.2.1} {showRat b.2.2.1} {showRat b.2.2.2}"
+    | _ => "bad-op"
+  | ["index", gw, gh, cx, cy, cw, ch, lon, lat] => match [gw, gh, cx, cy, cw, ch].mapM String.toInt?, parseRat lon, parseRat lat with
+    | some [gw, gh, cx, cy, cw, ch], some lon, some lat =>
+      let b := Gen.Filter.chunk_bounds gw gh cx cy cw ch
+      let r := Gen.Filter.chunk_index cw ch b.1 b.2.1 b.2.2.1 b.2.2.2 lon lat
+      s!"{r.1} {r.2.1} {r.2.2}"
+    | _, _, _ => "bad-op"
+  | _ => "bad-op"
+
 def handle (toks : List String) : String :=
   match toks with
   | "gen" :: op :: args => match ints args with
@@ -673,6 +707,7 @@ def handle (toks : List String) : String :=
   | "walk" :: args => handleWalk args
   | "toast" :: args => handleToast args
   | "sample" :: args => handleSample args
+  | "filter" :: args => handleFilter args
   | _ => "bad-op"
 
 end Driver
